@@ -17,7 +17,7 @@ pub fn property() -> Property {
     Property {
         id: "C17",
         level: "exploration",
-        rule: "Real loopback listeners behind a name mapped with the resolver hook H2. Per address one of: ACCEPT (listener that answers a small HTTP response and counts connections/requests), REFUSE (socket bound but not listening), BLACK-HOLE (listen backlog 0 + parked connection: further SYNs are dropped; verified with a probe connect before each use). Address lists with 0..3 entries per family ([::1]:p_i and 127.0.0.1:p_i), both family orders in the resolver output, EVERY assignment of {accept, refuse, black-hole} (<= 3^6 per shape; 3 198 assignments in thorough, a stride in quick) x deadline class {none, already expired, shorter than the race, longer than the race}; plus single-address and IP-literal fast paths. Oracle: reference racing order v6[0], v4[0], v6[1], v4[1], ... (resolver order kept inside a family): result Ok <=> some address accepts (and its attempt starts before the deadline); the connection on which the request arrives is at the FIRST acceptor of that order and no other acceptor sees a request; with k black-holes before it success takes at most k x 200 ms + 450 ms (connect_timeout is 10 s; a timing verdict must reproduce three times); all refuse => ConnectionRefused; no acceptor and a black-hole => Err after about connect_timeout (1 s in those cases). Non-trivial: >= 2 addresses; distinct = hash(assignment, order, deadline class).",
+        rule: "Real loopback listeners behind a name mapped with the resolver hook H2. Per address one of: ACCEPT (listener that answers a small HTTP response and counts connections/requests), REFUSE (socket bound but not listening), BLACK-HOLE (listen backlog 0 + parked connection: further SYNs are dropped; verified with a probe connect before each use). Address lists with 0..3 entries per family ([::1]:p_i and 127.0.0.1:p_i), both family orders in the resolver output, EVERY assignment of {accept, refuse, black-hole} (<= 3^6 per shape; 3 198 assignments in thorough, a stride in quick) x deadline class {none, already expired, shorter than the race, longer than the race}; plus single-address and IP-literal fast paths, and connect_timeout boundary values (Duration::MAX, 2^63 ms, one year) on lists that contain an acceptor. Oracle: reference racing order v6[0], v4[0], v6[1], v4[1], ... (resolver order kept inside a family): result Ok <=> some address accepts (and its attempt starts before the deadline); the connection on which the request arrives is at the FIRST acceptor of that order and no other acceptor sees a request; with k black-holes before it success takes at most k x 200 ms + 450 ms (connect_timeout is 10 s; a timing verdict must reproduce three times); all refuse => ConnectionRefused; no acceptor and a black-hole => Err after about connect_timeout (1 s in those cases). Non-trivial: >= 2 addresses; distinct = hash(assignment, order, deadline class).",
         assumptions: &["Linux loopback semantics (accept-queue overflow drops SYNs); IPv6 loopback available (otherwise the v6 cases are inconclusive)", "timing classes are 200 ms apart; a case on an overloaded machine is retried"],
         min_nontrivial: |t| t.pick(40, 2_000),
         gens,
@@ -77,6 +77,7 @@ fn gens(tier: Tier) -> Vec<Gen> {
     vec![
         Gen { name: "matrix", count: tier.pick(96, total), exhaustive: tier == Tier::Thorough, run: run_matrix },
         Gen { name: "fast-paths", count: 12, exhaustive: true, run: run_fast_paths },
+        Gen { name: "boundary-connect-timeout", count: (4 * 3 * 2) as u64, exhaustive: true, run: run_boundary_timeout },
         Gen { name: "unresponsive", count: 24, exhaustive: true, run: run_unresponsive },
     ]
 }
@@ -321,7 +322,7 @@ fn run_case(behs6: &[Beh], behs4: &[Beh], v4_first: bool, deadline: Deadline, co
         Deadline::Short => Some(300),
         Deadline::Long => Some(8_000),
     };
-    let mut rb = attohttpc::get(format!("http://{host}:9/c17")).connect_timeout(Duration::from_millis(connect_timeout_ms)).read_timeout(Duration::from_secs(5));
+    let mut rb = attohttpc::get(format!("http://{host}:9/c17")).connect_timeout(if connect_timeout_ms == u64::MAX { Duration::MAX } else { Duration::from_millis(connect_timeout_ms) }).read_timeout(Duration::from_secs(5));
     if let Some(t) = t_ms {
         rb = rb.timeout(Duration::from_millis(t));
     }
@@ -406,7 +407,7 @@ fn run_case(behs6: &[Beh], behs4: &[Beh], v4_first: bool, deadline: Deadline, co
         let limit = match (deadline, t_ms) {
             (Deadline::Expired, _) => Duration::from_millis(1500),
             (_, Some(t)) if !single && t < connect_timeout_ms => Duration::from_millis(t + 450),
-            _ => Duration::from_millis(connect_timeout_ms + (order.len() as u64) * 200 + 1500),
+            _ => Duration::from_millis(connect_timeout_ms.saturating_add((order.len() as u64) * 200 + 1500)),
         };
         if elapsed > limit {
             out.violation = Some(("timing:failure-reported-late".into(), format!("failure took {elapsed:?} (limit {limit:?}); {descr}")));
@@ -566,4 +567,39 @@ fn run_unresponsive(ctx: &mut Ctx, _rng: &mut Rng, index: u64) {
     }
     ctx.nontrivial(format!("unresp{index}").as_bytes());
     ctx.sample(|| json!({"gen": "unresponsive", "v6": format!("{b6:?}"), "v4": format!("{b4:?}"), "elapsed_ms": out.elapsed.as_millis() as u64}));
+}
+
+/// boundary values of connect_timeout ("no limit" spellings): an address that accepts is still
+/// found, through the same racing order
+fn run_boundary_timeout(ctx: &mut Ctx, _rng: &mut Rng, index: u64) {
+    use Beh::*;
+    let shapes: [(&[Beh], &[Beh]); 4] = [(&[Refuse, Accept], &[Refuse]), (&[BlackHole], &[Accept]), (&[], &[Refuse, Accept]), (&[Accept], &[Accept])];
+    let (b6, b4) = shapes[(index % 4) as usize];
+    // u64::MAX stands for Duration::MAX (adding it to any Instant overflows); 2^63 ms; one year
+    let ct = [u64::MAX, 1u64 << 63, 365 * 24 * 3600 * 1000][((index / 4) % 3) as usize];
+    let deadline = [Deadline::None, Deadline::Long][((index / 12) % 2) as usize];
+    for attempt in 0..3 {
+        if oversleep() > Duration::from_millis(150) {
+            std::thread::sleep(Duration::from_millis(200));
+            if attempt == 2 {
+                ctx.inconclusive("machine too loaded");
+            }
+            continue;
+        }
+        let out = run_case(b6, b4, index % 2 == 1, deadline, ct);
+        if let Some(why) = out.inconclusive {
+            ctx.inconclusive(why);
+            return;
+        }
+        if let Some((sig, detail)) = out.violation {
+            if sig.starts_with("timing:") && attempt < 2 {
+                ctx.count("timing_verdicts_rechecked", 1);
+                continue;
+            }
+            ctx.violation(format!("boundary-connect-timeout:{sig}"), detail);
+        }
+        ctx.count("boundary_connect_timeout_cases", 1);
+        break;
+    }
+    ctx.nontrivial(format!("bct{index}").as_bytes());
 }
